@@ -22,13 +22,13 @@ type pathCand struct {
 	Path []string
 	Leaf reflect.Type // declared type at the end; for Dyn paths the type the benign dynamic value will have
 	// source side
-	Dyn     bool // the path continues below an interface-typed field: only checkable at run time
+	Dyn     bool         // the path continues below an interface-typed field: only checkable at run time
 	IfaceT  reflect.Type // declared type of that interface-typed field
 	Need    reflect.Type // Dyn only: the dynamic type the interface must hold for the path to exist (nil: any benign container)
-	IfaceAt int  // len of the prefix that ends at the interface-typed field the path passes through or ends at (-1: none)
-	PtrAt   int  // len of the first prefix that ends at a pointer which the path continues through (-1: none); 0 = the root value
-	MapAt   int  // len of the first prefix that ends at a map in which the path looks up a key (-1: none); 0 = the root value
-	Nested  bool // passes through a pointer to pointer
+	IfaceAt int          // len of the prefix that ends at the interface-typed field the path passes through or ends at (-1: none)
+	PtrAt   int          // len of the first prefix that ends at a pointer which the path continues through (-1: none); 0 = the root value
+	MapAt   int          // len of the first prefix that ends at a map in which the path looks up a key (-1: none); 0 = the root value
+	Nested  bool         // passes through a pointer to pointer
 	// target side
 	StructEntry string // joined prefix that ends at an entry of a map with struct (non-pointer) elements below which the path continues
 	Shape       string // container kinds along the path: S struct field, M map key, A any hole, P pointer deref
@@ -187,7 +187,7 @@ type Case struct {
 	Hazard   string // the single hostile element put on a used path ("" none)
 	Struct   string // structural feature of the mapping set that is known to be delicate ("" none)
 	Seed     string // input of START when START is not a typed predecessor
-	invokeOK bool // the Invoke runs of the workflow under test did not fail (set while running)
+	invokeOK bool   // the Invoke runs of the workflow under test did not fail (set while running)
 }
 
 func (c *Case) startPred() *pred {
@@ -496,7 +496,7 @@ func tryGenCase(r *mon.Rand) *Case {
 			return
 		}
 		key := fmt.Sprintf("%d#%s", pi, joinPath(sc.Path[:sc.IfaceAt]))
-		have, ok := roles[key]
+		_, ok := roles[key]
 		switch {
 		case sc.Dyn && sc.Need != nil:
 			roles[key] = sc.Need
@@ -511,7 +511,6 @@ func tryGenCase(r *mon.Rand) *Case {
 				roles[key] = nil
 			}
 		}
-		_ = have
 	}
 	conflictsWithChosen := func(p []string) bool {
 		for _, t := range c.targets() {
